@@ -1066,7 +1066,7 @@ more:
 		case roleRunt:
 			runtReplies = append(runtReplies, got[i]...)
 		case roleJunk:
-			rep.Count("hostile_udp_junk_datagrams_answered(not judged)", int64(len(got[i])))
+			rep.Count("hostile_udp_junk_datagrams_answered_not_judged", int64(len(got[i])))
 		}
 	}
 	return judged, script, runtReplies, true
